@@ -183,8 +183,13 @@ def internalTarget? (n : Name) : Option Name :=
     | [] => none
     | g => some (g ++ sPy)
 
-/-- The direct internal imports of one program (a Python set; here in label order, with repeats). -/
-def directOf (ls : List Label) : List Name := ls.filterMap fun l => internalTarget? l.name
+/-- The direct internal imports of one program (a Python set; here in label order, with repeats):
+`if match and f"{match[1]}.py" in importations` — since fix 0c1b93c only a *collected* program counts. -/
+def directOf (paths : List Name) (ls : List Label) : List Name :=
+  ls.filterMap fun l =>
+    match internalTarget? l.name with
+    | some q => if q ∈ paths then some q else none
+    | none => none
 
 /-! ## `complete_and_collect_importations` (iterative, visited set) -/
 
@@ -290,7 +295,7 @@ def closureOf (d : List (Name × List Name)) (p : Name) : List Name :=
   closureLoop d (succs d p).reverse []
 
 def directImportations (progs : List (Name × List Label)) : List (Name × List Name) :=
-  progs.map fun p => (p.1, directOf p.2)
+  progs.map fun p => (p.1, directOf (progs.map (·.1)) p.2)
 
 def completeImportations (d : List (Name × List Name)) : List (Name × List Name) :=
   d.map fun e => (e.1, sortU (closureOf d e.1))
